@@ -35,6 +35,7 @@ class Ctx:
             self.ob = P.stage_obligations(self.ws, self.ds, self.verdicts, self.xl)
             self.dec = P.stage_decisions(self.ws, self.ds)['decisions']
             self.beh = P.stage_behaviour(self.ws, self.ds, self.verdicts, self.xl)
+            self.extra = P.stage_extra(self.ws, self.ds, self.verdicts, self.xl, self.dec)
         finally:
             self.ws.unlock()
         self.by_name = {d['name']: d for d in self.ds}
@@ -94,14 +95,51 @@ def sel_C16(d, kind, f):
     return kind in ('get', 'with', 'set')
 
 
-SELECT = {'C01': sel_C01, 'C02': sel_C02, 'C03': sel_C03, 'C04': sel_C04, 'C05': sel_C05, 'C08': sel_C08,
+def sel_C17(d, kind, f):
+    return kind in ('noget', 'nowith', 'noset')
+
+
+SELECT = {'C17': sel_C17, 'C01': sel_C01, 'C02': sel_C02, 'C03': sel_C03, 'C04': sel_C04, 'C05': sel_C05, 'C08': sel_C08,
           'C11': sel_C11, 'C12': sel_C12, 'C16': sel_C16}
 # struct-level obligations per property: label -> predicate on decl
+def _in(*labels):
+    return lambda d, l: l in labels
+
+
 STRUCT_LABELS = {
-    'C06': lambda d, l: l in ('storage', 'raw_value', 'new_with_raw_value'),
+    'C06': _in('storage', 'raw_value', 'new_with_raw_value', 'surface:struct', 'surface:consts', 'surface:new', 'surface:default_impl'),
     'C11': lambda d, l: l in ('raw_value', 'new_with_raw_value') and d['base'] not in D.NATIVE,
-    'C16': lambda d, l: l in ('raw_value', 'new_with_raw_value'),
+    'C13': _in('surface:builder_init', 'surface:builder_chain', 'surface:builder_struct'),
+    'C14': _in('surface:builder_init', 'surface:builder_chain', 'surface:builder_struct', 'surface:sigs'),
+    'C15': _in('surface:sigs', 'surface:consts', 'surface:builder_chain'),
+    'C16': _in('raw_value', 'new_with_raw_value'),
+    'C17': lambda d, l: l == 'surface:sigs' or l.split(':')[0] in ('noget', 'nowith', 'noset'),
+    'C18': _in('surface:no_unsafe', 'surface:paths', 'surface:sigs', 'surface:consts', 'surface:builder_struct',
+               'surface:builder_chain', 'surface:no_other_items', 'surface:struct'),
+    'C19': _in('surface:debug_impl'),
 }
+
+
+def extra_mismatches(ctx, pid):
+    """mismatches of the extra stages (programs that must not compile, const crate, regimes, facts, debug text)
+    that concern property pid -> list of (payload, concrete?)"""
+    out = []
+    ex = ctx.extra
+    for m in ex['cfail']['mismatches']:
+        if m['property'] == pid:
+            out.append((dict(m, kind='must-not-compile'), True))
+    if pid == 'C15':
+        for m in ex['const']['mismatches']:
+            out.append((dict(m, kind='const-context'), True))
+    if pid == 'C18':
+        for m in ex['regimes']['mismatches']:
+            out.append((dict(m, kind='crate-regime'), True))
+    for m in ctx.beh['facts']['mismatches']:
+        w = m.get('what', '')
+        if (w.startswith('size/alignment') and pid == 'C06') or (w.startswith('debug text') and pid == 'C19') or \
+                ('dev and release' in w and pid == 'C16') or (w == 'model output missing' and pid in ('C06', 'C19')):
+            out.append((dict(m, kind='facts'), True))
+    return out
 
 
 def verdict_obligations(ctx, kind):
@@ -114,7 +152,7 @@ def verdict_obligations(ctx, kind):
             continue
         real = d['name'] in acc
         if d['name'] in ctx.dec:
-            valid, model = ctx.dec[d['name']]
+            valid, model = ctx.dec[d['name']][:2]
             how = 'valid=%s model=%s' % (valid, model)
         else:
             valid = model = d['expect'] == 'accept'
@@ -179,6 +217,8 @@ def beh_selected(ctx, pid, m):
         return pid == 'C08'
     if m['op'] == 'R':
         return pid in ('C06', 'C16') or (pid == 'C11' and d['base'] not in D.NATIVE)
+    if m['op'] == 'B':
+        return pid in ('C13', 'C16') or (pid == 'C11' and d['base'] not in D.NATIVE)
     f = [x for x in d['fields'] if x['name'] == m['field']][0]
     sel = SELECT.get(pid)
     return bool(sel and sel(d, KIND_OF_OP[m['op']], f))
@@ -274,6 +314,15 @@ def check_property(pid, tier, seed):
                    'deps': [ctx.by_name[n] for n in sorted(P.deps_of(d))], 'witness': m}
         concrete = 'specification' in m.get('what', '') or m.get('what', '').startswith(('dev and release', 'Option<enum>'))
         violations.append((write_replay(pid, payload), '' if concrete else ' no-failing-input-found'))
+    # 3b. programs that must not compile, const context, crate regimes, static facts, debug text
+    exm = extra_mismatches(ctx, pid)
+    for m, concrete in exm[:4]:
+        d = ctx.by_name.get(m.get('decl'))
+        payload = {'property': pid, 'kind': m['kind'], 'witness': m}
+        if d is not None:
+            payload.update({'declaration': '\n'.join(D.rust_decl(d)), 'decl_json': d,
+                            'deps': [ctx.by_name[n] for n in sorted(P.deps_of(d))]})
+        violations.append((write_replay(pid, payload), '' if concrete else ' no-failing-input-found'))
     # 4. evidence
     n_ob = len(thms) + len(obs)
     n_ok = thm_ok + len(obs) - len(failing)
@@ -304,6 +353,10 @@ def check_property(pid, tier, seed):
                        'rejected': len(ctx.verdicts['rejected'])},
             'behavioural_tie': {k: ctx.beh[k] for k in ('programs', 'scenarios', 'ops', 'stats', 'distinct', 'n_mismatches')},
             'enum_behavioural_tie': {k: ctx.beh['enum'].get(k) for k in ('enums', 'conversions', 'stats', 'n_mismatches')},
+            'facts_and_debug_text_tie': {k: ctx.beh['facts'].get(k) for k in ('programs', 'debug_programs', 'debug_texts', 'n_mismatches')},
+            'must_not_compile_probes': {k: ctx.extra['cfail'].get(k) for k in ('probes', 'expected_errors', 'by_property', 'samples', 'n_mismatches')},
+            'const_context': {k: ctx.extra['const'].get(k) for k in ('items', 'values', 'agree', 'samples', 'n_mismatches')},
+            'crate_regimes': ctx.extra['regimes'].get('regimes'),
             'behavioural_tie_note': 'whole-corpus differential run (dev and release binaries vs eval checked/unchecked vs Spec.v); '
                                     'validates Expr.v and the translator; not a proof',
             'repo_tree': ctx.ws.repo_hash[:16],
